@@ -25,7 +25,13 @@
    already registered it -- so later records of that type are complete on disk but cannot be decoded; a lost
    header makes nothing readable.  Frames carry the descriptor ids they define (DESC) or need (REC):
    the contract then says such a record is never yielded (it would be decoded with some OTHER descriptor =
-   an altered record) and the reader raises instead of ending silently. *)
+   an altered record) and the reader raises instead of ending silently.
+
+   Short writes while the writer lives on: a raw file object may accept only j < size bytes of a call and say so.  The
+   writer hands the rest over in further calls until the part is complete (one Begin / Body step here covers all of
+   them).  Dev "IgnoresShortCount" (as built before the repair): the count is ignored and the writer goes on with the
+   next part, leaving a HOLE -- every later frame is misaligned and the reader decodes whatever bytes happen to
+   line up (`holes`; DesignRead then says "garbage"). *)
 
 EXTENDS Naturals, Sequences, FiniteSets, TLC
 
@@ -36,10 +42,11 @@ Kinds == {"DESC", "REC"}
 VARIABLES layout,   \* frames whose write has begun, in order: [k |-> kind, len |-> body size, ids |-> descriptor ids defined / needed, lost |-> BOOLEAN]
           disk,     \* number of bytes on disk
           pc,       \* "idle" | "len"  (length part of the last frame written, body still to come)
-          dead      \* a write call failed: the writer never writes again
-vars == <<layout, disk, pc, dead>>
+          dead,     \* a write call failed: the writer never writes again
+          holes     \* a short count was ignored: the bytes on disk are no longer a prefix of the frame sequence
+vars == <<layout, disk, pc, dead, holes>>
 
-Init == layout = <<>> /\ disk = 0 /\ pc = "idle" /\ dead = FALSE
+Init == layout = <<>> /\ disk = 0 /\ pc = "idle" /\ dead = FALSE /\ holes = FALSE
 
 \* descriptor ids whose DESC frame has been begun (whether or not it reached the disk): the packer considers them sent
 Sent == UNION {layout[i].ids : i \in {j \in DOMAIN layout : layout[j].k = "DESC"}}
@@ -55,23 +62,31 @@ MayBegin(k, ids) == /\ (layout = <<>>) = (k = "HDR")
 Begin(k, n, ids) ==
                /\ pc = "idle" /\ ~dead /\ Len(layout) < MaxFrames + 1
                /\ MayBegin(k, ids)
-               /\ layout' = Append(layout, [k |-> k, len |-> n, ids |-> ids, lost |-> FALSE])
-               /\ \/ disk' = disk + LenSize /\ pc' = "len" /\ UNCHANGED dead          \* fp.write(length) ok
-                  \/ \E j \in 0..(LenSize - 1) : disk' = disk + j /\ dead' = TRUE /\ UNCHANGED pc   \* fails after j bytes
+               /\ layout' = Append(layout, [k |-> k, len |-> n, ids |-> ids, lost |-> FALSE, hole |-> FALSE])
+               /\ \/ disk' = disk + LenSize /\ pc' = "len" /\ UNCHANGED <<dead, holes>>          \* fp.write(length) ok (possibly in several short calls)
+                  \/ \E j \in 0..(LenSize - 1) : disk' = disk + j /\ dead' = TRUE /\ UNCHANGED <<pc, holes>>   \* fails after j bytes
+                  \/ "IgnoresShortCount" \in Dev /\ \E j \in 0..(LenSize - 1) : disk' = disk + j /\ pc' = "len" /\ holes' = TRUE /\ UNCHANGED dead
 Body ==        /\ pc = "len" /\ ~dead
                /\ LET n == layout[Len(layout)].len IN
-                  \/ disk' = disk + n /\ pc' = "idle" /\ UNCHANGED dead               \* fp.write(body) ok
-                  \/ \E j \in 0..(n - 1) : disk' = disk + j /\ dead' = TRUE /\ UNCHANGED pc
+                  \/ disk' = disk + n /\ pc' = "idle" /\ UNCHANGED <<dead, holes>>               \* fp.write(body) ok (possibly in several short calls)
+                  \/ \E j \in 0..(n - 1) : disk' = disk + j /\ dead' = TRUE /\ UNCHANGED <<pc, holes>>
+                  \/ "IgnoresShortCount" \in Dev /\ \E j \in 0..(n - 1) : disk' = disk + j /\ pc' = "idle" /\ holes' = TRUE /\ UNCHANGED dead
                /\ UNCHANGED layout
 \* fp.write(length) raises with nothing written and the application carries on: the frame is simply absent
 Transient(k, n, ids) ==
                /\ pc = "idle" /\ ~dead /\ Len(layout) < MaxFrames + 1 /\ NLost < MaxTransient
                /\ MayBegin(k, ids)
-               /\ layout' = Append(layout, [k |-> k, len |-> n, ids |-> ids, lost |-> TRUE])
-               /\ UNCHANGED <<disk, pc, dead>>
+               /\ layout' = Append(layout, [k |-> k, len |-> n, ids |-> ids, lost |-> TRUE, hole |-> FALSE])
+               /\ UNCHANGED <<disk, pc, dead, holes>>
+\* fp.write(body) raises with nothing written and the application carries on: the length part is on disk, its body is
+\* not, and whatever is written later follows the dangling length -- nothing behind this point can be read
+TransientBody ==
+               /\ pc = "len" /\ ~dead /\ NLost + Cardinality({i \in DOMAIN layout : layout[i].hole}) < MaxTransient
+               /\ layout' = [layout EXCEPT ![Len(layout)].hole = TRUE]
+               /\ pc' = "idle" /\ UNCHANGED <<disk, dead, holes>>
 Next == \/ \E n \in BodySizes, ids \in SUBSET DescIds : Begin("DESC", n, ids) \/ Begin("REC", n, ids) \/ Transient("DESC", n, ids) \/ Transient("REC", n, ids)
         \/ Begin("HDR", HdrBody, {}) \/ Transient("HDR", HdrBody, {})
-        \/ Body
+        \/ Body \/ TransientBody
 Spec == Init /\ [][Next]_vars
 
 \* ---------------- what is entirely on disk ----------------
@@ -83,6 +98,7 @@ RECURSIVE Walk(_, _, _, _, _)
 Walk(lay, i, pos, cut, defs) ==
    IF i > Len(lay) THEN [y |-> 0, boundary |-> (pos = cut), blocked |-> FALSE]
    ELSE IF lay[i].lost THEN Walk(lay, i + 1, pos, cut, defs)
+   ELSE IF lay[i].hole THEN [y |-> 0, boundary |-> FALSE, blocked |-> (cut > pos + LenSize)]      \* a dangling length: nothing behind it is readable
    ELSE LET end == pos + LenSize + lay[i].len IN
         IF end <= cut
         THEN IF lay[i].k = "REC" /\ ~(lay[i].ids \subseteq defs)
@@ -94,10 +110,12 @@ Walk(lay, i, pos, cut, defs) ==
 RECURSIVE AnyRec(_, _, _, _)
 AnyRec(lay, i, pos, cut) == IF i > Len(lay) THEN FALSE
                             ELSE IF lay[i].lost THEN AnyRec(lay, i + 1, pos, cut)
+                            ELSE IF lay[i].hole THEN FALSE
                             ELSE LET end == pos + LenSize + lay[i].len IN
                                  end <= cut /\ (lay[i].k = "REC" \/ AnyRec(lay, i + 1, end, cut))
 Expected(lay, cut) == IF lay = <<>> THEN [y |-> 0, boundary |-> FALSE, blocked |-> FALSE]
                       ELSE IF lay[1].lost THEN [y |-> 0, boundary |-> FALSE, blocked |-> AnyRec(lay, 2, 0, cut)]
+                      ELSE IF lay[1].hole THEN [y |-> 0, boundary |-> FALSE, blocked |-> (cut > LenSize)]
                       ELSE IF cut < HdrLenOf(lay) THEN [y |-> 0, boundary |-> FALSE, blocked |-> FALSE]
                       ELSE Walk(lay, 2, HdrLenOf(lay), cut, {})
 
@@ -109,16 +127,17 @@ DWalk(lay, i, pos, cut, defs) ==
    ELSE IF cut - pos < LenSize
    THEN [y |-> 0, how |-> IF "ShortLenRaises" \in Dev /\ cut > pos THEN "raise" ELSE IF "BoundaryRaises" \in Dev THEN "raise" ELSE "end"]
    ELSE IF i > Len(lay) THEN [y |-> 0, how |-> "end"]       \* unreachable: bytes always belong to a begun frame
+   ELSE IF lay[i].hole THEN [y |-> 0, how |-> "raise"]      \* the bytes behind a dangling length are not one msgpack value (or too few)
    ELSE IF pos + LenSize + lay[i].len > cut
         THEN (IF "TolerantBody" \in Dev /\ lay[i].k = "REC" THEN [y |-> 1, how |-> "end"] ELSE [y |-> 0, how |-> "raise"])
         ELSE IF lay[i].k = "REC" /\ ~(lay[i].ids \subseteq defs) /\ "LostDescTolerated" \notin Dev
              THEN [y |-> 0, how |-> "raise"]                 \* RecordDescriptorNotFound
         ELSE LET nd == IF lay[i].k = "DESC" THEN defs \cup lay[i].ids ELSE defs
                  r == DWalk(lay, i + 1, pos + LenSize + lay[i].len, cut, nd)
-             IN IF "SkipAfterDesc" \in Dev /\ lay[i].k = "DESC" /\ i < Len(lay) /\ ~lay[i + 1].lost /\ pos + LenSize + lay[i].len + LenSize + lay[i + 1].len <= cut
+             IN IF "SkipAfterDesc" \in Dev /\ lay[i].k = "DESC" /\ i < Len(lay) /\ ~lay[i + 1].lost /\ ~lay[i + 1].hole /\ pos + LenSize + lay[i].len + LenSize + lay[i + 1].len <= cut
                 THEN DWalk(lay, i + 2, pos + LenSize + lay[i].len + LenSize + lay[i + 1].len, cut, nd)
                 ELSE [y |-> r.y + (IF lay[i].k = "REC" THEN 1 ELSE 0), how |-> r.how]
-DesignRead(lay, cut) == IF lay = <<>> \/ lay[1].lost \/ cut < HdrLenOf(lay) THEN [y |-> 0, how |-> "raise"] ELSE DWalk(lay, 2, HdrLenOf(lay), cut, {})
+DesignRead(lay, cut) == IF lay = <<>> \/ lay[1].lost \/ lay[1].hole \/ cut < HdrLenOf(lay) THEN [y |-> 0, how |-> "raise"] ELSE DWalk(lay, 2, HdrLenOf(lay), cut, {})
 
 \* ---------------- C04 ----------------
 ContractOK(lay, cut, y, how) == LET e == Expected(lay, cut) IN
@@ -126,10 +145,11 @@ ContractOK(lay, cut, y, how) == LET e == Expected(lay, cut) IN
                                   /\ how \in {"end", "raise"}
                                   /\ ((e.boundary /\ ~e.blocked) => how = "end")
                                   /\ (e.blocked => how = "raise")
-IntactPrefix == LET r == DesignRead(layout, disk) IN ContractOK(layout, disk, r.y, r.how)
+IntactPrefix == LET r == IF holes THEN [y |-> 0, how |-> "garbage"] ELSE DesignRead(layout, disk) IN ContractOK(layout, disk, r.y, r.how)
 \* a writer that was never interrupted leaves a stream that reads completely and cleanly
-CompleteReadsAll == (pc = "idle" /\ ~dead /\ layout # <<>> /\ NLost = 0) =>
+NHole == Cardinality({i \in DOMAIN layout : layout[i].hole})
+CompleteReadsAll == (pc = "idle" /\ ~dead /\ ~holes /\ layout # <<>> /\ NLost = 0 /\ NHole = 0) =>
                       LET r == DesignRead(layout, disk) IN
                         r.how = "end" /\ r.y = Cardinality({i \in DOMAIN layout : layout[i].k = "REC"})
-TypeOK == disk \in Nat /\ pc \in {"idle", "len"} /\ dead \in BOOLEAN
+TypeOK == disk \in Nat /\ pc \in {"idle", "len"} /\ dead \in BOOLEAN /\ holes \in BOOLEAN
 =============================================================================
